@@ -20,7 +20,7 @@ def run(ctx):
         "exhaustive": True,
         "explanation": "every peer script of the step bound over {right/wrong protocol line; connect request ok / unknown compression / "
                        "no supported version / another message first / garbage; open, open+close batch, close, data, window on two ids; "
-                       "unknown code, nested batch, garbage frame, structurally invalid message, truncated frame + EOF, 64 MiB declared "
+                       "unknown code, nested batch, garbage frame, structurally invalid message, a catalogue of values whose table entry ends anywhere from 0 to past the end of the value (small and big messages, lists; sent as a frame and as the connect request), truncated frame + EOF, 64 MiB declared "
                        "length + EOF, EOF, second connect request}: after every step the bytes the server wrote, connection open "
                        "(barrier round trip) or closed (EOF observed), handler starts and context cancellations must equal the model; "
                        "after every script a real client on its own connection does an echo round trip; the server process must "
